@@ -25,7 +25,7 @@ func solverConfigs(timeoutS int) []SolverCfg {
 	return []SolverCfg{
 		{Name: "z3-5.1.0/ematching", Cmd: []string{"z3-new", "-smt2", "-T:" + t, "smt.mbqi=false", "auto_config=false"}},
 		{Name: "z3-5.1.0/default", Cmd: []string{"z3-new", "-smt2", "-T:" + t}},
-		{Name: "cvc5-1.0.3", Cmd: []string{"cvc5", "--lang=smt2", "--tlimit=" + fmt.Sprint(timeoutS*1000)}},
+		{Name: "cvc5-1.0.3", Cmd: []string{"cvc5", "--lang=smt2", "--strings-exp", "--tlimit=" + fmt.Sprint(timeoutS*1000)}},
 		{Name: "z3-4.8.12/default", Cmd: []string{"z3", "-smt2", "-T:" + t}},
 	}
 }
@@ -121,7 +121,7 @@ func Discharge(items []struct {
 						cfg.Cmd[2] = "-T:" + fmt.Sprint(to)
 					case 2:
 						to = max(timeoutS/2, 5)
-						cfg.Cmd[2] = "--tlimit=" + fmt.Sprint(to*1000)
+						cfg.Cmd[3] = "--tlimit=" + fmt.Sprint(to*1000)
 					}
 				}
 				if cfg.Name == "cvc5-1.0.3" && strings.Contains(text, "(lambda ") {
